@@ -88,6 +88,17 @@ def check(ctx, tier, seed, t0):
                 b['config'] = 'forced-BE' if fbe else 'LE'
             tie_bad += bad
             vlib.log('C14 %s fbe=%s: %d commands %.1fs' % (name, fbe, len(cmds), _t.time() - _t0))
+    # big-endian execution of the real sources (CBMC --big-endian as interpreter of concrete calls): results must equal the little-endian ones
+    try:
+        from props import c14_be
+        bf, problems, st = c14_be.run(ctx, tier, seed)
+        failures += bf[:40]
+        dist['big-endian execution (CBMC --big-endian, big-endian helper branch)'] = st
+        total += st.get('cbmc_cases', 0)
+        for pr in problems:
+            proof['broken'].append({'file': 'big-endian execution stage (cbmc)', 'line': 0, 'error': pr[:400]})
+    except Exception as e:
+        proof['broken'].append({'file': 'big-endian execution stage (cbmc)', 'line': 0, 'error': str(e)[:400]})
     if tie_bad:
         # a conversion site that behaves differently from the model in one configuration: report with the command as replay
         for b in tie_bad[:20]:
@@ -100,7 +111,7 @@ def check(ctx, tier, seed, t0):
         'string arrays, VSS codec) executed twice: on the normal little-endian build against the model instance (helpers = LE branch, memory = LE), and on a build of the same '
         'sources with the BIG-ENDIAN helper branch forced on this host against the mismatched model instance (helpers = BE branch, memory = LE), whose deliberately wrong bytes '
         'the model must predict exactly; the second run distinguishes sites that swap unconditionally from sites that call the host-dependent helper. '
-        'A native big-endian run is not possible in this sandbox. non-trivial = distinct command x configuration',
+        'A native big-endian run is not possible in this sandbox; instead every named getter, setter and initialiser of every format is additionally executed on concrete inputs by CBMC with a big-endian memory model and the big-endian helper branch, and must return what the little-endian run returns. non-trivial = distinct command x configuration',
         [{'family': k, 'n': len(v)} for k, v in fam.items()][:6], len(tie_bad), len(failures), {'input_distribution': dist})
     return vlib.finish(PROP, tier, seed, t0, proof, streams, failures,
                        ASSUME + ['functional extensionality (Coq.Logic.FunctionalExtensionality.functional_extensionality_dep) is used by C14_all to turn pointwise equality of the access functions into equality'],
@@ -108,6 +119,17 @@ def check(ctx, tier, seed, t0):
 
 def replay(ctx, path):
     def rerun(ctx, f):
+        if (f.get('key') or {}).get('stage', '').startswith('big-endian execution'):
+            import re as _re
+            from props import c14_be
+            m = _re.match(r'case \d+: (.*) -> ', f['cmd'])
+            cmd = m.group(1) if m else f['cmd']
+            res = vlib.run_harness(ctx, [cmd])
+            files, _ = c14_be.emit(ctx, [cmd], res)
+            outs = [c14_be.run_cbmc(src, path_) for src, path_, _n in files]
+            bad = [x for _s, fl, err in outs for x in (fl or [])] + [err for _s, fl, err in outs if err]
+            return {'impl': ('big-endian execution differs: %s' % bad[0][:200]) if bad else 'big-endian execution gives the little-endian result %s' % res[0][:80],
+                    'expected': res[0][:200], 'fails': bool(bad)}
         fbe = f.get('config') == 'forced-BE'
         bad, _ = compare(ctx, [f['cmd']], fbe)
         return {'impl': bad[0]['impl'][:200] if bad else 'agrees with the model', 'expected': bad[0]['model'][:200] if bad else '', 'fails': bool(bad)}
